@@ -763,7 +763,7 @@ func lexBegin(l *lexer) stateFunc {
 			if l.acceptToken(token_curly_open) {
 				return lexBegin
 			}
-			if l.acceptToken(token_number) {
+			if l.numberIsWholeArgument() && l.acceptToken(token_number) {
 				continue
 			}
 			if l.acceptToken(token_string) {
@@ -774,6 +774,18 @@ func lexBegin(l *lexer) stateFunc {
 	}
 
 	return l.error("unknown statement")
+}
+
+// numberIsWholeArgument tells 100 from 100% or 10-base-t, which are unquoted strings
+func (l *lexer) numberIsWholeArgument() bool {
+	i := l.pos
+	for ; i < len(l.input); i++ {
+		c := l.input[i]
+		if !(c >= '0' && c <= '9') && c != '.' && !((c == '-' || c == '+') && i == l.pos) {
+			break
+		}
+	}
+	return i > l.pos && (i == len(l.input) || isStringDelim(rune(l.input[i])))
 }
 
 func (l *lexer) acceptEndOfStatement() stateFunc {
